@@ -264,12 +264,21 @@ impl<'a, SE: brush_core::ShellExtensions> Highlighter<'a, SE> {
                 self.append_span(HighlightKind::Parameter, piece.clone());
             }
             brush_parser::word::WordPiece::BackquotedCommandSubstitution(command) => {
-                self.set_next_missing_kind(HighlightKind::CommandSubstitution);
-                self.highlight_program(
-                    command.as_str(),
-                    piece.start + 1, /* opening backtick */
-                );
-                self.set_next_missing_kind(HighlightKind::CommandSubstitution);
+                // The parsed command has escapes such as `\`` already removed, so its offsets
+                // only map onto the line when it is the verbatim text between the backticks.
+                let raw_command = self
+                    .input_line
+                    .get(piece.start + 1..piece.end.saturating_sub(1));
+                if raw_command == Some(command.as_str()) {
+                    self.set_next_missing_kind(HighlightKind::CommandSubstitution);
+                    self.highlight_program(
+                        command.as_str(),
+                        piece.start + 1, /* opening backtick */
+                    );
+                    self.set_next_missing_kind(HighlightKind::CommandSubstitution);
+                } else {
+                    self.append_span(HighlightKind::CommandSubstitution, piece.clone());
+                }
             }
             brush_parser::word::WordPiece::CommandSubstitution(command) => {
                 self.set_next_missing_kind(HighlightKind::CommandSubstitution);
